@@ -1,0 +1,28 @@
+//go:build verif
+// +build verif
+
+package mimc7
+
+import (
+	"crypto/sha256"
+	"encoding/binary"
+	"encoding/hex"
+)
+
+// VerifStateDigest fingerprints the package-level constants, for the purity
+// checks of /verif.
+func VerifStateDigest() string {
+	h := sha256.New()
+	var b [8]byte
+	h.Write([]byte(constants.seedHash.String())) //nolint:errcheck,gosec
+	h.Write([]byte(constants.iv.String()))       //nolint:errcheck,gosec
+	binary.LittleEndian.PutUint64(b[:], uint64(constants.nRounds))
+	h.Write(b[:]) //nolint:errcheck,gosec
+	for _, e := range constants.cts {
+		for _, l := range e {
+			binary.LittleEndian.PutUint64(b[:], l)
+			h.Write(b[:]) //nolint:errcheck,gosec
+		}
+	}
+	return hex.EncodeToString(h.Sum(nil))
+}
